@@ -98,7 +98,7 @@ def plan(tier):
     units.append(('empty', tier))
     units.append(('pairs', tier))
     units.append(('module', tier))
-    units.append(('linebreaks', tier))
+    units += [('linebreaks', tier, k) for k in range(16)]
     return units
 
 
@@ -278,23 +278,47 @@ def run(unit):
     elif what == 'linebreaks':
         # characters that some line-splitting routines treat as line breaks (str.splitlines does), white space
         # look-alikes and a byte-order mark: inside string literals / annotations and stray between tokens; each
-        # member's own parse decides what the file must do
+        # member's own parse decides what the file must do.  A thin slice also goes through the module-level
+        # helpers parse_specification / parse_property (a new parser per call), which must agree with the parser objects.
+        import hpl.parser as HP
+
         chars = ['\r', '\x0b', '\x0c', '\x1c', '\x1d', '\x1e', '\x85', '\u2028', '\u2029', '\t', '\xa0', '\ufeff', '\x00', '\x1f', '\u200b', '\r\n']
-        for c in chars:
-            members = [
-                f'# title: "a{c}b" globally: no a', f'globally: no b {{s = "x{c}y"}}', f'# description: "{c}" until e: b requires c', f'# id: k{c}\nglobally: no a',
-                f'globally:{c}no a', f'globally: no a{c}', f'{c}globally: no a', f'globally: no a {{x >{c}1}}', f'# id: p{c}# title: "t" globally: some b',
-            ]
-            for m in members:
-                for others in ([], [POOL[0]], [POOL[0], annotate(POOL[2], ('id',), 7)[0]]):
-                    for pos in range(len(others) + 1):
-                        parts = others[:pos] + [m] + others[pos:]
-                        for sep in ('\n', ' ', '\n\n'):
-                            r.count('states')
-                            metas = [dict(single(p)[1][1]) if single(p)[0] == 'ok' else {} for p in parts]
-                            for kind, detail in check_file(parts, metas, sep, r):
-                                r.violation(kind + ' [unusual white space or line-break character]', {'parts': parts, 'sep': sep, 'linebreaks': True}, detail.replace(c, repr(c)), size=len(parts) * 100 + len(m))
-        r.sample({'linebreak_member': repr('# title: "a\x0bb" globally: no a')})
+        c = chars[unit[2]]
+        members = [
+            f'# title: "a{c}b" globally: no a', f'globally: no b {{s = "x{c}y"}}', f'# description: "{c}" until e: b requires c', f'# id: k{c}\nglobally: no a',
+            f'globally:{c}no a', f'globally: no a{c}', f'{c}globally: no a', f'globally: no a {{x >{c}1}}', f'# id: p{c}# title: "t" globally: some b',
+        ]
+
+        def module_outcome(fn, text):
+            try:
+                res = fn(text)
+            except Exception as e:  # noqa: BLE001
+                return (impl.outcome_class(e), None)
+            return ('ok', [observe_prop(q) for q in res.properties] if hasattr(res, 'properties') else observe_prop(res))
+
+        for m in members:
+            for others in ([], [POOL[0]], [POOL[0], annotate(POOL[2], ('id',), 7)[0]]):
+                for pos in range(len(others) + 1):
+                    parts = others[:pos] + [m] + others[pos:]
+                    for sep in ('\n', ' ', '\n\n'):
+                        r.count('states')
+                        metas = [dict(single(p)[1][1]) if single(p)[0] == 'ok' else {} for p in parts]
+                        for kind, detail in check_file(parts, metas, sep, r):
+                            r.violation(kind + ' [unusual white space or line-break character]', {'parts': parts, 'sep': sep, 'linebreaks': True}, detail.replace(c, repr(c)), size=len(parts) * 100 + len(m))
+            # module-level helpers on the member alone and on a two-member file
+            r.count('transitions', 3)
+            st_obj = single(m)
+            got = module_outcome(HP.parse_property, m)
+            if got[0] != st_obj[0] or (got[0] == 'ok' and got[1] != st_obj[1]):
+                r.violation('parse_property (module level) disagrees with the property parser object [unusual white space or line-break character]', {'parts': [m], 'sep': '\n', 'module_level': True}, f'{m!r}: {got[0]} vs {st_obj[0]}', size=len(m))
+            for parts in ([m], [POOL[0], m]):
+                text = '\n'.join(parts)
+                st, spec = impl.try_parse('spec', text)
+                exp = (st, [observe_prop(q) for q in spec.properties] if st == 'ok' else None)
+                got = module_outcome(HP.parse_specification, text)
+                if got[0] != exp[0] or (got[0] == 'ok' and got[1] != exp[1]):
+                    r.violation('parse_specification (module level) disagrees with the specification parser object [unusual white space or line-break character]', {'parts': parts, 'sep': '\n', 'module_level': True}, f'{text!r}: {got[0]} vs {exp[0]}', size=len(text))
+        r.sample({'linebreak_member': repr(members[0])})
     elif what == 'module':
         # the module-level helpers: a result (and its metadata) belongs to the caller; parsing the same text
         # again must give what the text says
@@ -345,6 +369,21 @@ def replay(w):
         return [{'sig': 'file with two malformed members is accepted', 'detail': w['text']}] if st == 'ok' else []
     if w.get('module'):
         return [{'sig': v['sig'], 'detail': v['detail']} for v in run(('module', 'quick')).violations]
+    if w.get('module_level'):
+        import hpl.parser as HP
+
+        text = w['sep'].join(w['parts'])
+        out = []
+        for fn, kind in ((HP.parse_specification, 'spec'),) + (((HP.parse_property, 'prop'),) if len(w['parts']) == 1 else ()):
+            st, obj = impl.try_parse(kind, text)
+            try:
+                res = fn(text)
+                got = 'ok'
+            except Exception as e:  # noqa: BLE001
+                got = impl.outcome_class(e)
+            if got != st:
+                out.append({'sig': f'{fn.__name__} (module level) disagrees with the parser object', 'detail': f'{text!r}: {got} vs {st}'})
+        return out
     if 'parts' in w:
         metas = []
         return [{'sig': k, 'detail': d} for k, d in check_file(w['parts'], [dict(single(p)[1][1]) if single(p)[0] == 'ok' else {} for p in w['parts']], w['sep'], r)]
